@@ -313,6 +313,50 @@ def showErr : DErr → String
   | .other => "err other"
   | .panic => "panic"
 
+def reqOutcome (t : ReqTables) (bs : List Byte) : String :=
+  match requestDeserialize t bs with
+  | .ok variant none => s!"ok {variant} -"
+  | .ok variant (some v) => s!"ok {variant} {showVal v}"
+  | .err st => s!"err {st}"
+  | .panic => "panic"
+
+def fnv (h : UInt64) (b : UInt8) : UInt64 := (h ^^^ b.toUInt64) * 0x100000001b3
+
+structure SweepAcc where
+  ok : Nat := 0
+  e1 : Nat := 0
+  e18 : Nat := 0
+  e20 : Nat := 0
+  eo : Nat := 0
+  pn : Nat := 0
+  first : String := ""
+  digest : UInt64 := 0
+
+/-- every byte string `pre ‖ s`, `|s| = n`: outcome classes and an order-independent digest
+    (the sum of FNV-1a over input bytes followed by the outcome text) -/
+def sweep (t : ReqTables) (pre : List Byte) (n : Nat) : String :=
+  let total := 256 ^ n
+  let rec go (k : Nat) (i : Nat) (a : SweepAcc) : SweepAcc :=
+    match k with
+    | 0 => a
+    | k+1 =>
+      let bs := pre ++ be n i
+      let out := reqOutcome t bs
+      let h := out.toUTF8.foldl fnv (bs.foldl fnv 0xcbf29ce484222325)
+      let a := { a with digest := a.digest + h }
+      let a :=
+        if out.startsWith "ok" then { a with ok := a.ok + 1 }
+        else if out = "err 1" then { a with e1 := a.e1 + 1 }
+        else if out = "err 18" then { a with e18 := a.e18 + 1 }
+        else if out = "err 20" then { a with e20 := a.e20 + 1 }
+        else if out = "panic" then { a with pn := a.pn + 1, first := if a.first.isEmpty then toHex bs else a.first }
+        else { a with eo := a.eo + 1 }
+      go k (i + 1) a
+  let a := go total 0 {}
+  let hexd := toHex ((be 8 a.digest.toNat))
+  s!"sweep n={total} ok={a.ok} err1={a.e1} err18={a.e18} err20={a.e20} errother={a.eo} panic={a.pn}" ++
+    (if a.first.isEmpty then "" else s!" first={a.first}") ++ s!" digest={hexd}"
+
 def handle (src : Source) (line : String) : String :=
   match line.trimAscii.toString.splitOn " " with
   | ["dec", cfg, ty, hex] =>
@@ -357,13 +401,13 @@ def handle (src : Source) (line : String) : String :=
        | _, _ => "bad-case")
   | ["req", cfg, hex] =>
     (match parseCfg cfg, fromHex hex with
-     | some c, some bs =>
-       (match requestDeserialize (src.reqTables c) bs with
-        | .ok variant none => s!"ok {variant} -"
-        | .ok variant (some v) => s!"ok {variant} {showVal v}"
-        | .err st => s!"err {st}"
-        | .panic => "panic")
+     | some c, some bs => reqOutcome (src.reqTables c) bs
      | _, _ => "bad-case")
+  | ["sweep", cfg, pfx, n] =>
+    (match parseCfg cfg, fromHex pfx, n.toNat? with
+     | some c, some pre, some n =>
+       if n > 3 then "bad-case" else sweep (src.reqTables c) pre n
+     | _, _, _ => "bad-case")
   | ["resp", cfg, variant, val, cap, prior] =>
     (match parseCfg cfg, cap.toNat?, fromHex prior with
      | some c, some cap, some prior =>
